@@ -253,7 +253,12 @@ def gen_cases(tier, seed):
             ents = [e for e in range(N_BASE) if (e + si) % 3 == 0]
             m = 12 if tier == 'quick' else 3
             ents += [e for e in range(N_BASE, n) if (e + si) % m == 0]
-        cs.append({'seed': seed * 100003 + si, 'per_entry': per_entry, 'all6': si % 6 == 0, 'entries': ents, 'rot': si})
+        if si % 6 == 0:
+            # all six configurations, as three cases of two (shorter cases balance the worker shards better)
+            for pair in ([[0, False], [2, True]], [[1, False], [0, True]], [[2, False], [1, True]]):
+                cs.append({'seed': seed * 100003 + si, 'per_entry': per_entry, 'cfgs': pair, 'entries': ents, 'rot': si})
+        else:
+            cs.append({'seed': seed * 100003 + si, 'per_entry': per_entry, 'cfgs': [[0, False], [2, True]], 'entries': ents, 'rot': si})
     from .. import nearmiss
     nn = len(nearmiss.all_programs())
     for lo in range(0, nn, 24):
@@ -329,7 +334,7 @@ def run_case(case):
           'entries_hit': [], 'contexts': []}
     viol = []
     shapes = []
-    cfgs = rt.CONFIGS6 if case['all6'] else [(0, False), (2, True)]
+    cfgs = [tuple(c_) for c_ in case['cfgs']]
     good = []
     for cfg in cfgs:
         c0 = rt.compile_src(seed_text, cfg[0], cfg[1])
